@@ -291,8 +291,9 @@ def c07(cases, f64=False):
                 if g * g * n > F(n - 1) ** 2 * (1 + F(1, 10 ** 6)):
                     bad("|Vsct| = %.9g exceeds (N-1)/sqrt(N)" % abs(float(g)), t)
                     break
-            if name == "Vsct" and f64 and abs(float(g)) > (n - 1) / math.sqrt(n) * (1 + 1e-12):
-                bad("|Vsct| = %.17g exceeds (N-1)/sqrt(N)" % abs(float(g)), t)
+            if name == "Vsct" and f64 and abs(float(g)) > (n - 1) / math.sqrt(n) * (1 + 1e-15 * 8):
+                small = abs(float(g)) <= (n - 1) / math.sqrt(n) * (1 + 1e-6)
+                bad("|Vsct| = %.17g exceeds (N-1)/sqrt(N) = %.17g" % (abs(float(g)), (n - 1) / math.sqrt(n)), t, "c07-vsct-residue-f64" if small else None)
                 break
             if name == "Cog":
                 k = min(n, t + 1)
@@ -304,7 +305,11 @@ def c07(cases, f64=False):
                 w = xx[max(0, t + 1 - n): t + 1]
                 tol = ulps_tol(max(abs(x) for x in w), f64) * (n if name in ("Sma", "Alma") else 0)
                 if not (min(w) - tol <= g <= max(w) + tol):
-                    bad("%s outside [min, max] of its window" % g, t)
+                    exc = max(min(w) - g, g - max(w))
+                    seen = max(abs(x) for x in xx[:t + 1])
+                    resid = f64 and name in ("Sma", "Alma") and exc <= seen * F(1, 10 ** 12)
+                    bad("%s (~%.6g) outside [min, max] = [%s, %s] of its window" % (g, float(g), min(w), max(w)), t,
+                        ("c07-hull-residue-%s-f64" % name.lower()) if resid else None)
                     break
                 if name == "Min" and g != min(w) or name == "Max" and g != max(w):
                     bad("%s is not the extremum of the window" % g, t)
@@ -401,4 +406,193 @@ def c10_dc(fcases):
         want = 5.0 if name == "Ss" else 0.0
         if not (abs(y - want) <= 1e-6):
             out.append(viol("c10-dc-" + name.lower(), "%s on the constant stream 5 reports %r after 3000 steps (limit %r)" % (d_sexpr(c.desc), y, want), [], desc=d_sexpr(c.desc)))
+    return out
+
+# ---------------------------------------------------------------------------------- C12
+SQRT_VIEWS = {"Vsct", "Vst", "Cti", "TrendFlex", "ReFlex", "Welford", "Pfe", "Eft", "WRolling", "LnReturn", "Entropy"}
+def close(a, b, c):
+    """equality, or agreement to 1e-6 for views whose exact-scalar runs go through the floor-rounded surrogate sqrt/ln"""
+    if a == b:
+        return True
+    if c.desc[0] in SQRT_VIEWS or (set(d_views(c.desc)) & SQRT_VIEWS):
+        return abs(a - b) <= F(1, 10 ** 6) * max(1, abs(a), abs(b))
+    return False
+
+def c12(groups):
+    out = []
+    def flat(c, t, extra=0):
+        n = c.desc[1] if len(c.desc) > 1 and isinstance(c.desc[1], int) else 1
+        xs = c.inputs()
+        w = xs[max(0, t + 1 - n - extra): t + 1]
+        return len(set(w)) <= 1
+    def aff(a, b, prm, t, c):
+        if close(a, b, c):
+            return True
+        if c.desc[0] == "Cti" and t + 1 < c.desc[1]:
+            return "D15"
+        return False
+    for (c1, c2, prm) in groups["affine"]:
+        r = pointwise_rel("c12-affine-" + c1.desc[0].lower(), "must be unchanged under x -> a*x+b", [(c1, c2, prm)],
+                          lambda a, b, p, t, c: aff(a, b, p, t, c) is True or (None if aff(a, b, p, t, c) == "D15" else False))
+        out += r
+        if not r and c1.desc[0] == "Cti":
+            o1, o2 = c1.outs(), c2.outs()
+            for t in range(len(o1)):
+                if o1[t] is not None and o2[t] is not None and not close(o1[t], o2[t], c1) and t + 1 < c1.desc[1]:
+                    out.append(viol("D15-cti-warmup-offset", "%s before its window is full is not offset-invariant: step %d gives %s vs %s under x -> x+%s"
+                                    % (d_sexpr(c1.desc), t + 1, o1[t], o2[t], prm[1]), [c1, c2], step=t + 1))
+                    break
+    def scale_inv(a, b, prm, t, c):
+        if a == b:
+            return True
+        if c.desc[0] == "Vst" and flat(c, t):
+            return "W2"
+        return False
+    for (c1, c2, prm) in groups["scale_inv"]:
+        o1, o2 = c1.outs(), c2.outs()
+        for t in range(len(o1)):
+            if o1[t] == o2[t]:
+                continue
+            if isinstance(o1[t], str) or isinstance(o2[t], str):
+                out.append(viol("c12-error", "error in %s" % d_sexpr(c1.desc), [c1, c2]))
+                break
+            if o1[t] is not None and o2[t] is not None and close(o1[t], o2[t], c1):
+                continue
+            if c1.desc[0] == "Vst" and flat(c1, t):
+                out.append(viol("W2-vst-scale-flat-window", "%s on a flat window reports the value itself, so x -> %s*x changes it: %s vs %s (step %d)" % (d_sexpr(c1.desc), prm[0], o1[t], o2[t], t + 1), [c1, c2], step=t + 1))
+            else:
+                out.append(viol("c12-scale-" + c1.desc[0].lower(), "%s must be unchanged under x -> %s*x: step %d gives %s vs %s" % (d_sexpr(c1.desc), prm[0], t + 1, o1[t], o2[t]), [c1, c2], step=t + 1))
+            break
+    out += pointwise_rel("c12-scale-eq", "must scale by a under x -> a*x", groups["scale_eq"], lambda a, b, prm, t, c: close(b, prm[0] * a, c))
+    def neg(a, b, prm, t, c):
+        if close(b, -a, c):
+            return True
+        return None if flat(c, t, 1) else False
+    out += pointwise_rel("c12-negation", "must be negated under x -> -x", groups["negate"], neg)
+    out += pointwise_rel("c12-negation-rsi", "Rsi must map to 100-Rsi under x -> -x", groups["rsi_neg"],
+                         lambda a, b, prm, t, c: True if b == 100 - a else (None if flat(c, t, 1) else False))
+    out += pointwise_rel("c12-min-max", "Min(-x) must be -Max(x)", groups["minmax"], lambda a, b, prm, t, c: b == -a)
+    return out
+
+# ---------------------------------------------------------------------------------- C15
+def c15(cases, rejects, what):
+    out = []
+    for c in cases:
+        name = c.desc[0]
+        if c.ctor_ok is False:
+            out.append(viol("c15-ctor-" + name.lower(), "%s: constructor panicked for an admissible window length [%s]" % (d_sexpr(c.desc), what), [c]))
+            continue
+        if any(b.kind == "E" for b in c.obs):
+            t = next(i for i, b in enumerate(c.obs) if b.kind == "E")
+            f64 = c.meta.get("mode") == "f64"
+            key = "c15-panic-%s%s" % (name.lower(), "-f64" if f64 else "")
+            out.append(viol(key, "%s: update()/last() panicked or produced a non-finite value at operation %d [%s]" % (d_sexpr(c.desc), t + 1, what), [c] if len(c.ops) <= 120 else [], desc=d_sexpr(c.desc), op=t + 1, profile=what))
+    for c in rejects:
+        if c.ctor_ok is not False:
+            out.append(viol("c15-accepts-" + c.desc[0].lower(), "%s: the constructor accepts a window length below the view's minimum (update() cannot handle it)" % d_sexpr(c.desc), [c]))
+    return out
+
+# ---------------------------------------------------------------------------------- C17
+def lineages(c):
+    """per op: (instance, lineage-after-op) for u/l ops"""
+    lin = [[]]
+    res = []
+    for o in c.ops:
+        if o[0] == "u":
+            if o[1] < len(lin):
+                lin[o[1]] = lin[o[1]] + [o[2]]
+                res.append((o[1], tuple(lin[o[1]])))
+            else:
+                res.append(None)
+        elif o[0] == "l":
+            res.append((o[1], tuple(lin[o[1]])) if o[1] < len(lin) else None)
+        else:
+            lin.append(list(lin[o[1]]) if o[1] < len(lin) else [])
+            res.append(None)
+    return res
+
+def c17_prepare(cases):
+    viols, refs = [], []
+    for c in cases:
+        c.lin = lineages(c)
+        need = sorted({l[1] for l in c.lin if l is not None}, key=len)
+        # one reference run per maximal lineage: a lineage that is a prefix of another is read off it
+        maximal = [l for l in need if not any(m != l and m[:len(l)] == l for m in need)]
+        c.refs = {}
+        for m in maximal:
+            r = Case(c.desc, [("l", 0)] + [("u", 0, x) for x in m], {"view": c.desc[0], "regime": "reference", "role": "reference"})
+            refs.append(r)
+            c.refs[m] = r
+    return viols, refs
+
+def c17(cases, refs, f64=False):
+    out = []
+    for c in cases:
+        if c.ctor_ok is False:
+            continue
+        for (o, b, l) in zip(c.ops, c.obs, c.lin):
+            if l is None:
+                if o[0] == "c" and b.kind == "CE" and "Add" not in d_views(c.desc):
+                    out.append(viol("c17-clone", "%s: clone failed" % d_sexpr(c.desc), [c]))
+                continue
+            inst, lin = l
+            ref = next(r for m, r in c.refs.items() if m[:len(lin)] == lin)
+            rb = ref.obs[len(lin)]
+            a = (b.kind, b.val)
+            e = (rb.kind, rb.val)
+            if a != e:
+                out.append(viol("c17-lineage-" + c.desc[0].lower(), "%s: instance %d observed %s after the updates %s, a fresh instance fed the same updates reports %s%s"
+                                % (d_sexpr(c.desc), inst, b.js(), [str(x) for x in lin][-6:], rb.js(), " [f64 bits]" if f64 else ""), [c, ref]))
+                break
+    return out
+
+def c17_static():
+    import glob
+    pat = re.compile(r"\b(unsafe|Cell<|RefCell|static mut|thread_local|Rc<|Arc<|Atomic|Mutex|lazy_static|OnceCell|OnceLock)\b")
+    hits = []
+    for f in glob.glob(os.path.join(REPO, "src", "**", "*.rs"), recursive=True):
+        if f.endswith("plot.rs") or f.endswith("test_data.rs"):
+            continue
+        src = open(f).read().split("#[cfg(test)]")[0]
+        for i, line in enumerate(src.split("\n")):
+            if pat.search(line) and not line.strip().startswith("//"):
+                hits.append("%s:%d: %s" % (os.path.relpath(f, REPO), i + 1, line.strip()[:100]))
+    if hits:
+        return [viol("c17-shared-state", "shared or interior-mutable state in /repo/src: " + "; ".join(hits[:5]), [], hits=hits)]
+    return []
+
+# ---------------------------------------------------------------------------------- C18
+def c18_pop(cases, bound, long=False):
+    out = []
+    for c in cases:
+        if c.ctor_ok is False:
+            continue
+        B = bound(c.desc)
+        pops = [b.pop for b in c.obs if b.kind in ("S", "N")]
+        if not pops:
+            continue
+        worst = max(pops)
+        if worst > B:
+            t = next(i for i, p in enumerate(pops) if p > B)
+            out.append(viol("c18-population-" + c.desc[0].lower(), "%s holds %d buffered elements at step %d, the bound for its window lengths is %d (and %d at the end of %d steps)"
+                            % (d_sexpr(c.desc), pops[t], t + 1, B, pops[-1], len(pops)), [c] if len(c.ops) <= 80 else [], desc=d_sexpr(c.desc), bound=B))
+            continue
+        if long and len(pops) >= 200 and pops[-1] != pops[len(pops) // 2]:
+            out.append(viol("c18-growth-" + c.desc[0].lower(), "%s: buffered elements still changing between step %d (%d) and step %d (%d)" % (d_sexpr(c.desc), len(pops) // 2, pops[len(pops) // 2], len(pops), pops[-1]), [], desc=d_sexpr(c.desc)))
+    return out
+
+def c18_mem(descs, L):
+    exe = build_harness("release")
+    inp = "".join("m%d mem %s ; %d\n" % (i, d_sexpr(d), L) for i, d in enumerate(descs))
+    r = subprocess.run([exe, "run", "48", "32"], input=inp, stdout=subprocess.PIPE, text=True)
+    out = []
+    for d, line in zip(descs, r.stdout.strip().split("\n")):
+        toks = line.split()[1:]
+        if toks == ["E"] or len(toks) != 3:
+            out.append(viol("c18-mem-error", "%s: could not measure (%s)" % (d_sexpr(d), line), [], desc=d_sexpr(d)))
+            continue
+        a, b, c_ = (int(x) for x in toks)
+        if c_ > b or b > a and c_ > a:
+            if c_ > a:
+                out.append(viol("c18-heap-" + d[0].lower(), "%s: live heap bytes owned grow with the stream: %d at %d updates, %d at %d, %d at %d" % (d_sexpr(d), a, L, b, 2 * L, c_, 4 * L), [], desc=d_sexpr(d), bytes=[a, b, c_]))
     return out
